@@ -61,6 +61,7 @@ inline std::vector<GGroup> buildGroups(const Content& c, const Layout& l) {
     P.params.push_back(GParam::floats("SCALE", {}, {0xBF800000u}, true));
     P.params.push_back(GParam::floats("RATE", {}, {c.haveRateBits ? c.rateBits : f2b(c.pointRate)}, true));
     if (!c.noDataStart) P.params.push_back(GParam::ints("DATA_START", {}, {0}, true));      // patched by encode(); some vendor files do not carry it
+    if (c.extra == "dsprefix") P.params.push_back(GParam::ints("DATA_START_FRAME", {}, {705}));   // a look-alike name in the POINT group itself
     P.params.push_back(GParam::ints("FRAMES", {}, {c.nFrames}, true));
     {   int n = std::min(255, std::max(0, c.nPoints + c.labelsDelta)); std::vector<std::string> v; for (int i = 0; i < n; ++i) v.push_back(ptLabel(i)); if (c.blankLabel && n > 0) v[(size_t)n - 1] = "    "; P.params.push_back(GParam::strs("LABELS", 4, {n}, v, D("labels")));
         int nd = std::min(c.nPoints, 255); std::vector<std::string> d; for (int i = 0; i < nd; ++i) d.push_back(i % 2 ? "" : "desc" + std::to_string(i)); if (c.optParams != "minimal") P.params.push_back(GParam::strs("DESCRIPTIONS", 8, {nd}, d)); }
